@@ -153,7 +153,7 @@ def mapKeys (s : Store) (n : Nat) (unify : Bool) (memo : Memo) (cur : List Nat) 
       let r1 := mapOne s n unify memo x
       if r1.2.2 == x then mapKeys r1.1 n unify r1.2.1 cur xs
       else if cur.contains r1.2.2 then (r1.1, r1.2.1, cur, false)
-      else mapKeys r1.1 n unify r1.2.1 (cur.erase x ++ [r1.2.2]) xs
+      else mapKeys r1.1 n unify r1.2.1 (cur.filter (fun k => k != x) ++ [r1.2.2]) xs
     else mapKeys s n unify memo cur xs
 
 /-- the memo of `_clone_from` with a foreign namespace: every member of the source namespace, in order,
